@@ -602,7 +602,7 @@ def c20_scenarios(tier, seed):
                 dclo.append(x)
                 stack += [d for t in tasks if t["name"] == x for d in t["deps"]]
         meta.append({"tasks": tasks, "vars": vars_, "req": req, "closure": clo, "dclosure": dclo,
-                     "modes": ["json", "json", "quiet", "show", "vars", "noargs", "json-noargs", "json"]})
+                     "modes": ["json", "json", "quiet", "show", "vars", "noargs", "json-noargs", "json"], "argvs": [st["argv"] for st in steps]})
     return scen, meta
 
 
@@ -613,8 +613,9 @@ def rec_c20(s, mt, r):
           "vars": [{"name": x["name"], "value": x["value"].replace("@PROJ@", os.path.join(r["home"], "proj"))} for x in mt["vars"]],
           "req": mt["req"], "closure": mt["closure"]}
     steps, views = [], []
-    for mode, st in zip(mt["modes"], r["steps"]):
-        v = {"mode": mode, "json_ok": False, "doc": [], "rows": [], "sorted": True, "listing": False, "closure": mt["closure"]}
+    for k, (mode, st) in enumerate(zip(mt["modes"], r["steps"])):
+        v = {"mode": mode, "json_ok": False, "doc": [], "rows": [], "sorted": True, "listing": False, "closure": mt["closure"],
+             "fresh": k == 0 or "--force" in mt.get("argvs", [[]] * 99)[k]}
         out = st["stdout"]
         if mode == "json-noargs":
             # spok --json without task names: the default task's run when one exists (otherwise unconstrained)
